@@ -2,6 +2,8 @@ package checks
 
 import (
 	"fmt"
+	"strings"
+	"unicode"
 
 	"verifharness/internal/core"
 	"verifharness/internal/engine"
@@ -100,4 +102,95 @@ func typedDefsAcrossFiles(c *engine.Ctx) int {
 		}
 	}
 	return fails
+}
+
+// renamedKeysAcrossScripts (C03, "every typed position"): one schema with typed members at the top, in a nested object
+// and in array items, written once with ASCII names and once per script with every name replaced by a word of that
+// script (cased scripts incl. Georgian, Greek, Cyrillic, Armenian, Cherokee, Deseret, a digraph letter, full-width
+// Latin; caseless scripts: CJK, Arabic, Hebrew, Thai, Devanagari).  The documents are renamed the same way.  The name
+// of a property is not part of its type: the renamed program must give every document the verdict the reference gives
+// the ASCII document.
+func renamedKeysAcrossScripts(c *engine.Ctx) int {
+	ascii := []string{"name", "age", "ok", "address", "city", "tags", "zip"}
+	scripts := map[string][]string{
+		"georgian":   {"სახელი", "ასაკი", "კარგი", "მისამართი", "ქალაქი", "ნიშნები", "ინდექსი"},
+		"greek":      {"όνομα", "ηλικία", "εντάξει", "διεύθυνση", "πόλη", "ετικέτες", "κώδικας"},
+		"cyrillic":   {"имя", "возраст", "да", "адрес", "город", "метки", "индекс"},
+		"armenian":   {"անուն", "տարիք", "լավ", "հասցե", "քաղաք", "պիտակներ", "ինդեքս"},
+		"cherokee":   {"ꭰꮿ", "ꭱꮎ", "ꭲꮝ", "ꭳꮒ", "ꭴꮤ", "ꭵꮥ", "ꭶꮦ"},
+		"deseret":    {"𐐨𐐩", "𐐪𐐫", "𐐬𐐭", "𐐮𐐯", "𐐰𐐱", "𐐲𐐳", "𐐴𐐵"},
+		"digraph":    {"ǆak", "ǉak", "ǌak", "ǳak", "ǆep", "ǉep", "ǌep"},
+		"fullwidth":  {"ｎａｍｅ", "ａｇｅ", "ｏｋ", "ａｄｄｒ", "ｃｉｔｙ", "ｔａｇｓ", "ｚｉｐ"},
+		"latin-ext":  {"ñame", "élan", "øk", "åddress", "çity", "þags", "žip"},
+		"cjk":        {"名前", "年齢", "可", "住所", "都市", "札", "郵便"},
+		"arabic":     {"اسم", "عمر", "نعم", "عنوان", "مدينة", "وسوم", "رمز"},
+		"hebrew":     {"שם", "גיל", "כן", "כתובת", "עיר", "תגים", "מיקוד"},
+		"thai":       {"ชื่อ", "อายุ", "ตกลง", "ที่อยู่", "เมือง", "ป้าย", "รหัส"},
+		"devanagari": {"नाम", "आयु", "ठीक", "पता", "शहर", "टैग", "कोड"},
+	}
+	build := func(n []string) (sgen.M, []any) {
+		schema := sgen.M{"type": "object", "properties": sgen.M{
+			n[0]: sgen.M{"type": "string"}, n[1]: sgen.M{"type": "integer"}, n[2]: sgen.M{"type": []any{"boolean", "null"}},
+			n[3]: sgen.M{"type": "object", "properties": sgen.M{n[4]: sgen.M{"type": "string"}, n[6]: sgen.M{"type": "integer"}}},
+			n[5]: sgen.M{"type": "array", "items": sgen.M{"type": "object", "properties": sgen.M{n[0]: sgen.M{"type": "string"}}}}}}
+		vals := []any{"s", 7, 1.5, true, []any{}, M{}}
+		docs := []any{M{n[0]: "x", n[1]: 3, n[2]: nil, n[3]: M{n[4]: "c", n[6]: 1}, n[5]: []any{M{n[0]: "t"}}}}
+		for _, v := range vals {
+			docs = append(docs, M{n[0]: v}, M{n[1]: v}, M{n[2]: v}, M{n[3]: M{n[4]: v}}, M{n[3]: M{n[6]: v}}, M{n[5]: []any{M{n[0]: v}}}, M{n[3]: v}, M{n[5]: v})
+		}
+		return schema, docs
+	}
+	as, ad := build(ascii)
+	twin := baseCase("c03-renamed", as, ad, "ascii")
+	pcs := []*core.PCase{twin}
+	var order []string
+	for _, sc := range core.SortedKeys(scripts) {
+		s, d := build(scripts[sc])
+		pcs = append(pcs, baseCase("c03-renamed", s, d, sc))
+		order = append(order, sc)
+	}
+	res := runCases(c, pcs)
+	fails := 0
+	tw := res[0]
+	if tw.RunsJ == nil || len(tw.ModelRuns) < len(tw.DocJSON) {
+		c.Fail("oracle", "the ASCII twin of the renamed-keys family does not generate: "+tw.Real.ErrMsg+clip(tw.CompileErr, 200), replayOf(tw, -1, nil), false)
+		return 1
+	}
+	for k, sc := range order {
+		r := res[k+1]
+		if hasTagHostileRune(scripts[sc]) && knownListed(c, "K38-combining-mark-in-property-name") {
+			c.Count("renamed keys", sc+": K38 region (a name contains a character encoding/json rejects in a tag name; judged by the listed witness)")
+			continue
+		}
+		if r.RunsJ == nil {
+			fails++
+			c.Fail("oracle", "property names in "+sc+" script: the program does not generate / compile: "+r.Real.ErrMsg+clip(r.CompileErr, 200), replayOf(r, -1, nil), false)
+			continue
+		}
+		for d := range r.DocJSON {
+			spec, real := tw.ModelRuns[d].Spec, r.RunsJ[d].Kind
+			c.Eval("c03-renamed|" + sc + "|" + spec + "|" + real + "|" + classOfDoc(tw.DocJSON[d]))
+			c.Count("renamed keys", sc+": "+spec+"/"+real)
+			if (spec == "valid") != (real == "ok") {
+				fails++
+				if fails <= 3 {
+					c.Fail("oracle", fmt.Sprintf("property names in %s script: reference (on the ASCII spelling %s) says %s, generated code says %s (%s)", sc, tw.DocJSON[d], spec, real, clip(r.RunsJ[d].Msg, 160)),
+						replayOf(r, d, M{"ascii_schema": string(tw.SchemaJSON), "ascii_doc": tw.DocJSON[d]}), false)
+				}
+			}
+		}
+	}
+	return fails
+}
+
+// hasTagHostileRune: encoding/json's isValidTag accepts letters, digits and "!#$%&()*+-./:;<=>?@[]^_{|}~ " only.
+func hasTagHostileRune(names []string) bool {
+	for _, n := range names {
+		for _, r := range n {
+			if !unicode.IsLetter(r) && !unicode.IsDigit(r) && !strings.ContainsRune("!#$%&()*+-./:;<=>?@[]^_{|}~ ", r) {
+				return true
+			}
+		}
+	}
+	return false
 }
